@@ -321,7 +321,9 @@ Section WithFile.
     inv_cuheap : forall id c, nth_error (cus s) id = Some c -> In (c_off c, id) (combine (cu_keys s) (cu_objs s));
     (* the CFI entries a client holds: one memo per entry of the section; a decoded table, when present, is
        the pure decoding of that entry *)
-    inv_cfis : forall eh l, held eh s = Some l -> held_ok eh l
+    inv_cfis : forall eh l, held eh s = Some l -> held_ok eh l;
+    (* _type_units_by_sig, once built, indexes every type unit *)
+    inv_tumap : forall m, tu_map s = Some m -> m = tumap_spec F
   }.
 
   Lemma Inv_init n : Inv (init_state n).
@@ -339,11 +341,12 @@ Section WithFile.
     - left. reflexivity.
     - intros [|id] c H; discriminate.
     - intros [|] l H; discriminate.
+    - intros m H; discriminate.
   Qed.
 
   Lemma Inv_set_cur s c : Inv s -> length c = length (cur s) -> Inv (set_cur s c).
   Proof.
-    intros [H1 H2 H3 H4 H5 H6 H7 H8 H9 H10 H11 H12] Hl. constructor; cbn; auto. congruence.
+    intros [H1 H2 H3 H4 H5 H6 H7 H8 H9 H10 H11 H12 H13] Hl. constructor; cbn; auto. congruence.
   Qed.
 
   (* ---- objects persist; their immutable part does not change; generator frames are only changed
@@ -453,6 +456,7 @@ Section WithFile.
   Inductive frame_rel (s : state) : frame -> aframe -> Prop :=
   | FR_empty : frame_rel s FEmpty AFEmpty
   | FR_cus off : (off < f_info_size F -> exists ud, unit_at F off = Some ud) -> frame_rel s (FCUs off) (AFCUs off)
+  | FR_tus off : (off < f_types_size F -> exists x, tu_at F off = Some x) -> frame_rel s (FTUs off) (AFTUs off)
   | FR_children u cf acf : cframe_rel s u cf acf -> frame_rel s (FChildren cf) (AFChildren u acf)
   | FR_siblings_new u self o : die_at s self u o -> frame_rel s (FSiblings self None) (AFSiblings u o None)
   | FR_siblings u self o cf acf : die_at s self u o -> cframe_rel s u cf acf ->
@@ -513,7 +517,7 @@ Section WithFile.
   Qed.
 
   Lemma Inv_set_frames s fr : Inv s -> Inv (set_frames s fr).
-  Proof. intros [H1 H2 H3 H4 H5 H6 H7 H8 H9 H10 H11 H12]. constructor; cbn; auto. Qed.
+  Proof. intros [H1 H2 H3 H4 H5 H6 H7 H8 H9 H10 H11 H12 H13]. constructor; cbn; auto. Qed.
 
   Lemma frames_rel_set_slot s afs slot f af :
     frames_rel s afs -> frame_rel s f af ->
